@@ -247,6 +247,45 @@ func c06Run(c lib.Case, env *lib.Env) lib.Result {
 	} else if aerr := pwr.AssertValid(dir, sig); aerr != nil {
 		res.Violate("assertvalid-fails-after-heal:"+classes, desc, aerr.Error())
 	}
+	// the SAME validator context heals once more: the same directory damaged again, or another damaged copy
+	if len(s.Damages) > 0 && c.ID%3 == 0 {
+		dir2, where := dir, "same directory damaged again"
+		if c.ID%6 == 3 {
+			dir2, where = filepath.Join(env.Scratch, "tree2"), "another damaged copy"
+			ref.Materialize(dir2)
+		}
+		okDamage := true
+		for _, d := range s.Damages {
+			if err := lib.ApplyDamage(dir2, d); err != nil {
+				okDamage = false
+			}
+		}
+		if okDamage {
+			var verr2 error
+			var p2 bool
+			var st2 string
+			v2 := lib.RunWithQuiescence(func() {
+				verr2, p2, st2 = lib.Guard(func() error { return vctx.Validate(context.Background(), dir2, sig) })
+			}, 30*time.Second)
+			res.Add("heals_with_a_context_that_healed_before", 1)
+			switch {
+			case !v2.Returned:
+				res.Violate("heal-does-not-return:reused-context:"+classes, desc, where, v2.Report)
+				return res
+			case p2:
+				res.Violate("heal-panic:reused-context:"+classes, desc, where, verr2.Error(), st2)
+			case verr2 != nil:
+				res.Violate("heal-returns-error:reused-context:"+classes, desc, where, verr2.Error())
+			default:
+				got2, _ := lib.ReadTree(dir2)
+				if ds := lib.DiffBuilds(got2, ref, true); len(ds) > 0 {
+					res.Violate("not-restored:reused-context:"+classes, append([]string{desc, where}, lib.DiffStrings(ds, 6)...)...)
+				} else if aerr := pwr.AssertValid(dir2, sig); aerr != nil {
+					res.Violate("assertvalid-fails-after-heal:reused-context:"+classes, desc, where, aerr.Error())
+				}
+			}
+		}
+	}
 	if before != nil {
 		after, _ := lib.TreeStat(dir)
 		if df := lib.DiffStat(before, after); len(df) > 0 {
@@ -268,7 +307,7 @@ func init() {
 	lib.Register(&lib.Property{
 		ID:          "C06",
 		Level:       "fault_enumeration",
-		Rule:        "reference builds (nested dirs, symlinks incl. dangling and to a directory, empty files/dirs; small build with block-boundary sizes); damage = nothing (valid directory), every single damage of the C05 list (one representative per file/boundary class), subtree-hiding kind swaps (directory -> file, -> dangling symlink, -> symlink to a sibling with equal child names, -> symlink to another existing directory, file/symlink -> non-empty directory), directory emptied / removed, whole tree emptied / missing, random combinations of 2-5; each damaged tree is healed by Validate+HealPath from a zip made by wharf's CompressZip under schedules validator-first, healer-first (forced at the verif hooks, bounded waits) and seeded perturbation with GOMAXPROCS 1/4/16. Oracle: returned (quiescence detector), no error, every signed entry exact (independent tree comparison, extra files allowed), AssertValid nil; valid directory: inode/mtime/size/checksum unchanged. distinct = distinct (build, damage classes, schedule, GOMAXPROCS)",
+		Rule:        "reference builds (nested dirs, symlinks incl. dangling and to a directory, empty files/dirs; small build with block-boundary sizes); damage = nothing (valid directory), every single damage of the C05 list (one representative per file/boundary class), subtree-hiding kind swaps (directory -> file, -> dangling symlink, -> symlink to a sibling with equal child names, -> symlink to another existing directory, file/symlink -> non-empty directory), directory emptied / removed, whole tree emptied / missing, random combinations of 2-5; each damaged tree is healed by Validate+HealPath from a zip made by wharf's CompressZip under schedules validator-first, healer-first (forced at the verif hooks, bounded waits) and seeded perturbation with GOMAXPROCS 1/4/16. Oracle: returned (quiescence detector), no error, every signed entry exact (independent tree comparison, extra files allowed), AssertValid nil; valid directory: inode/mtime/size/checksum unchanged. In every third damaged case the same validator context then heals a second time (the same directory damaged again / another damaged copy) under the same oracle. Symlink destinations include non-normal spellings. distinct = distinct (build, damage classes, schedule, GOMAXPROCS)",
 		Assumptions: []string{"schedule space is sampled: two forced orders + seeded perturbation; the evidence counts runs in which a hidden child was checked before / after its parent was healed", "extra (unsigned) files may remain"},
 		Flavors: func(tier string) []string {
 			if tier == "thorough" {
